@@ -35,15 +35,23 @@ class PageDatabase:
         self._parsed: Dict[FileId, Tuple[Page, FileId, List[Diagnostic]]] = {}
         self._orphan_diagnostics: Dict[FileId, List[Diagnostic]] = {}
         self.__cached = PostprocessorResult({}, {}, {}, TargetDatabase())
-        self.__changed_pages: Set[FileId] = set()
+
+        # Every mutation of _parsed bumps __generation. __cached_generation is the generation
+        # of the snapshot that __cached was computed from; the database is dirty if and only
+        # if the two differ. (Clearing a set of changed pages when publishing would forget any
+        # page that changed while the postprocessor was running.)
+        self.__generation = 0
+        self.__cached_generation = 0
 
         def start(
             cancellation_token: threading.Event,
             args: Postprocessor,
         ) -> PostprocessorResult:
             with self._lock:
-                if not self.__changed_pages:
+                if self.__cached_generation == self.__generation:
                     return self.__cached
+
+                snapshot_generation = self.__generation
 
                 with util.PerformanceLogger.singleton().start("copy"):
                     copied_pages = {}
@@ -58,8 +66,10 @@ class PageDatabase:
                 result = args.run(copied_pages, cancellation_token)
 
             with self._lock:
-                self.__cached = result
-                self.__changed_pages.clear()
+                # Never let the result of an older snapshot replace a newer one
+                if snapshot_generation > self.__cached_generation:
+                    self.__cached = result
+                    self.__cached_generation = snapshot_generation
 
             return result
 
@@ -80,7 +90,7 @@ class PageDatabase:
         """Set a raw parsed page."""
         with self._lock:
             self._parsed[key] = value
-            self.__changed_pages.add(key)
+            self.__generation += 1
 
     def get(self, key: FileId) -> Optional[Page]:
         try:
@@ -91,7 +101,7 @@ class PageDatabase:
     def __getitem__(self, key: FileId) -> Page:
         """If the postprocessor has been run since modifications were made, fetch a postprocessed page."""
         with self._lock:
-            assert not self.__changed_pages
+            assert self.__cached_generation == self.__generation
             return self.__cached.pages[key]
 
     def __contains__(self, key: FileId) -> bool:
@@ -111,7 +121,7 @@ class PageDatabase:
             except KeyError:
                 pass
 
-            self.__changed_pages.add(key)
+            self.__generation += 1
 
     def add_to_cache(self, cache: parse_cache.CacheData) -> None:
         with self._lock:
@@ -202,5 +212,6 @@ class PageDatabase:
         db = PageDatabase()
         db._parsed = unpickled.parsed
         db._orphan_diagnostics = unpickled.orphan_diagnostics
-        db.__changed_pages = set(db._parsed.keys())
+        if db._parsed:
+            db.__generation += 1
         return db
